@@ -125,8 +125,15 @@ def run(ctx):
                                detail="Close dispatches messages other than the deposit refund: %s" % [show(m)[:120] for m in others])
                     else:
                         x = cs_call(st)
-                        ctx.ob("R05.3", key + "/status via current_status", x is not None, sites=[e.site],
-                               detail="status written as %s - neither current_status(..), Executed (Execute) nor Rejected (Close)" % show(st)[:160],
+                        # ... evaluated on the stored proposal (with the new tally): current_status only moves an Open proposal, so
+                        # handing it a copy whose status was reset re-opens an Executed / Rejected one
+                        fwd = False
+                        if x is not None:
+                            xb, xf = update_base(x)
+                            fwd = xb == base and set(xf) <= {"votes"}
+                        ctx.ob("R05.3", key + "/status via current_status", x is not None and fwd, sites=[e.site],
+                               detail="status written as %s - neither current_status(<the stored proposal, tally updated>, ..), Executed (Execute) "
+                                      "nor Rejected (Close)" % show(st)[:200],
                                sample={"status": show(st)[:100]})
                 # messages of the proposal may leave only after the Executed write (R05.1/R05.2)
                 relays = [(h, m) for h, m in ents if any(x[0] == "field" and x[2] == "msgs" and loaded_from(x[1]) and loaded_from(x[1])[0] == PROP
